@@ -66,6 +66,10 @@ class Env:
                 sys.path.insert(0, sp)
         if sys.path[0] != self.repo:
             sys.path.insert(0, self.repo)
+        if os.environ.get("VERIF_COV") and not getattr(Env, "_linecov", False):
+            Env._linecov = True
+            import linecov
+            linecov.install(self.repo)      # harness authors' aid (tools/anchor_coverage.py), never part of a verdict
         import aiocoap
         here = os.path.realpath(os.path.dirname(aiocoap.__file__))
         if not here.startswith(os.path.realpath(self.repo) + os.sep):
